@@ -37,6 +37,8 @@
 // explicit instantiation of the value classes: every non-template member function gets a body the checker can see, also overloads
 // that no statement below happens to select (ref-qualified operators, rarely used accessors)
 template class parmcb::SpVecGF2<std::size_t>;
+// a narrow index type: conversions between the index type and sizes / positions become visible as casts (R17f)
+template class parmcb::SpVecGF2<unsigned short>;
 template class parmcb::SpVecFP<int>;
 template class parmcb::SpVecFP<long long>;
 
